@@ -3,6 +3,7 @@ package ksim
 import (
 	"context"
 	"fmt"
+	autoscalingv2 "k8s.io/api/autoscaling/v2"
 	"os"
 	"strings"
 
@@ -39,6 +40,7 @@ type Scenario struct {
 	MaxSurge       string      `json:"maxSurge,omitempty"`
 	MaxUnav        string      `json:"maxUnavailable,omitempty"`
 	MinReady       int         `json:"minReadySeconds,omitempty"`
+	HPA            bool        `json:"hpa,omitempty"` // a HorizontalPodAutoscaler targets the workload (blue-green releases disable it for their duration)
 	Events         []UserEvent `json:"events"`
 	AutoApprove    bool        `json:"autoApprove"`
 	V2Fails        bool        `json:"v2Fails"`
@@ -248,11 +250,23 @@ func (s *Sim) setupCluster(sc *Scenario, first bool) {
 		must(h.Create(ctx, loadWebhookConfig()))
 	}
 	must(h.Create(ctx, sc.buildWorkload()))
+	if sc.HPA {
+		must(h.Create(ctx, sc.buildHPA()))
+	}
 	for _, o := range sc.buildNetwork() {
 		if err := h.Create(ctx, o); err != nil && !apierrors.IsAlreadyExists(err) {
 			must(err)
 		}
 	}
+}
+
+// buildHPA: the user's autoscaler; min == max == replicas, so it never resizes the workload itself
+func (sc *Scenario) buildHPA() client.Object {
+	apiV, kind := sc.workloadGVK()
+	n := int32(sc.Replicas)
+	return &autoscalingv2.HorizontalPodAutoscaler{ObjectMeta: metav1.ObjectMeta{Namespace: sc.NS, Name: sc.Name + "-hpa"},
+		Spec: autoscalingv2.HorizontalPodAutoscalerSpec{ScaleTargetRef: autoscalingv2.CrossVersionObjectReference{APIVersion: apiV, Kind: kind, Name: sc.Name},
+			MinReplicas: &n, MaxReplicas: n}}
 }
 
 // buildNetwork: the user's Service and gateway objects (several rules, foreign backends, extra annotations).
